@@ -49,8 +49,9 @@ def ops_for(rng, lay, tier):
     nbytes = (sum(n for _, n in lay) + 7) // 8
     ops = []
     frames = [[0] * nbytes, [255] * nbytes] + [[rng.randrange(256) for _ in range(nbytes)] for _ in range(2)]
-    for fr in frames:
-        ops.append({"op": "setframe", "d": fr})
+    for k, fr in enumerate(frames):
+        # contents installed by assignment, by reception from the bus, or in place
+        ops.append({"op": "setframe", "d": fr, "how": ["assign", "rx", "inplace", "rx"][k % 4]})
         for i in range(1, len(lay) + 1):
             ops.append({"op": "read", "i": i})
         order = list(range(1, len(lay) + 1))
@@ -92,8 +93,10 @@ def main():
     if args.replay:
         cases = [json.load(open(args.replay))["case"]]
     else:
-        cases = [{"lay": l, "ops": ops_for(rng, [tuple(x) for x in l], args.tier), "implicit_len": rng.random() < 0.5}
-                 for l in lays]
+        cases = [{"lay": l, "ops": ops_for(rng, [tuple(x) for x in l], args.tier), "implicit_len": rng.random() < 0.5,
+                  # every third map held a longer mapping (the first objects, full length) before
+                  "premap": list(range(min(len(l), 8))) + [0] if k % 3 == 2 and sum(n for _, n in l) < 40 else None}
+                 for k, l in enumerate(lays)]
     results = run_cases("harness.drv_pdobits:run_case", cases, jobs=args.jobs, timeout=120)
     if any(r.get("hang") for r in results):
         raise RuntimeError("driver hang")
@@ -108,7 +111,8 @@ def main():
         sig = {"clause": rej.why, "ev": ev.get("e"), "kind": kind, "aligned": off % 8 == 0 and n % 8 == 0,
                "subbyte": n < 8, "crosses_byte": (off % 8) + n > 8 and n <= 8}
         v.report(sig, f"{rej.why} [field {i} type=0x{t:X} len={n} off={off} layout={lay}] event={str(ev)[:300]} frame={rej.state[:200]}",
-                 {"case": {"lay": lay, "ops": cases[rej.index]["ops"][:0], "implicit_len": cases[rej.index].get("implicit_len", True)},
+                 {"case": {"lay": lay, "ops": cases[rej.index]["ops"][:0], "implicit_len": cases[rej.index].get("implicit_len", True),
+                           "premap": cases[rej.index].get("premap")},
                   "full_ops": len(cases[rej.index]["ops"]), "step": rej.step, "why": rej.why, "spec_state": rej.state, "event": ev})
     cov = {"states": mc.distinct, "transitions": mc.generated, "traces_validated_against_impl": val.traces,
            "samples": [{"lay": cases[0]["lay"], "events": results[0]["ev"][:6]}], "trace_events": val.events,
